@@ -108,6 +108,9 @@ func (c channelState) LastVoucher() datatransfer.TypedVoucher {
 }
 
 func (c channelState) LastVoucherResult() datatransfer.TypedVoucher {
+	if len(c.ic.VoucherResults) == 0 {
+		return datatransfer.TypedVoucher{}
+	}
 	evr := c.ic.VoucherResults[len(c.ic.VoucherResults)-1]
 	return datatransfer.TypedVoucher{Voucher: evr.VoucherResult.Node, Type: evr.Type}
 }
